@@ -116,6 +116,7 @@ def check(ctx: Ctx, ev: Evidence) -> list[Finding]:
     ev.rule("C09-R2", "the CRC loop is the cursor/end tiling idiom: cursor from 0, chunk = min(segment_len, size - cursor), read at (cursor, chunk), cursor += chunk", 5)
     ev.rule("C09-R3", "type -> algorithm: CRC_32 -> crc32, CRC_32C -> crc32c, NULL -> null constant before any file access, MODULAR -> modular sum, anything else refused", 6)
     ev.rule("C09-R4", "verify_checksum == (calculate_checksum(same arguments) == checksum)", 1)
+    ev.rule("C09-R6", "modular checksum: the file is read word by word (4 bytes), or in blocks whose length is explicitly aligned to the 4-byte word grid (otherwise per-block padding makes the result depend on the chunk length)", 1)
     ev.rule("C09-R5", "every EOF PDU announces the size its checksum was computed over", 2)
     fi = prog.functions.get(NF + ".calculate_checksum")
     if fi is None:
@@ -216,6 +217,30 @@ def check(ctx: Ctx, ev: Evidence) -> list[Finding]:
     ev.inst("C09-R3", "MODULAR type -> calc_modular_checksum", "ok" if ok else "violation", loc(fi, fi.node))
     if not ok:
         out.append(Finding("C09-R3", f"{fi.qualname} | modular type", "the modular checksum type is not computed by calc_modular_checksum", loc(fi, fi.node)))
+    # R6 modular word grid
+    mod_fns = [f for f in prog.functions.values() if f.module == "cfdppy.crc"]
+    called = {ast.unparse(n.func) for n in ast.walk(mod[0]) if isinstance(n, ast.Call)} if mod else set()
+    mod_fns = [f for f in mod_fns if f.name in called]
+    if not mod_fns:
+        raise AnalysisError("modular checksum function not found (callee of the MODULAR branch in cfdppy.crc)")
+    for mf in mod_fns:
+        reads = [n for n in ast.walk(mf.node) if isinstance(n, ast.Call) and isinstance(n.func, ast.Attribute) and n.func.attr == "read" and n.args]
+        if not reads:
+            raise AnalysisError(f"{mf.qualname}: no file read found (modular checksum idiom not recognised)")
+        for rd in reads:
+            expr = rd.args[0]
+            consts = {n.value for n in ast.walk(expr) if isinstance(n, ast.Constant) and isinstance(n.value, int)}
+            names = {n.id for n in ast.walk(expr) if isinstance(n, ast.Name)} - {"min", "max", "None"}
+            # names that only bound the total (remaining prefix length) are harmless: they shorten the final block only
+            defs = {ast.unparse(s_.targets[0]): ast.unparse(s_.value) for s_ in ast.walk(mf.node) if isinstance(s_, ast.Assign) and len(s_.targets) == 1}
+            block_names = {nm for nm in names if nm not in ("remaining", "size_to_verify") and defs.get(nm) not in ("size_to_verify",)}
+            wordwise = consts <= {4} and 4 in consts and not block_names
+            aligned = bool(block_names) and all(any(tok in (defs.get(nm, "") + ast.unparse(expr)) for tok in ("% 4", "// 4", "& ~3", "& -4")) for nm in block_names)
+            ok6 = wordwise or aligned
+            ev.inst("C09-R6", f"{mf.name}: read({ast.unparse(expr)}) - " + ("word-wise" if wordwise else ("block length aligned to 4" if aligned else f"block length {sorted(block_names)} NOT aligned to the word grid")), "ok" if ok6 else "violation", loc(mf, rd))
+            if not ok6:
+                out.append(Finding("C09-R6", f"{mf.qualname} | read({ast.unparse(expr)[:60]}) | unaligned block length",
+                                   f"the modular checksum reads blocks of {sorted(block_names)} bytes without aligning them to the 4-byte word grid: each block's tail is zero-padded on its own, so the result depends on the chunk length", loc(mf, rd)))
     # R4
     vq = "cfdppy.filestore.VirtualFilestore.verify_checksum"
     vf = prog.functions.get(vq)
